@@ -5,6 +5,8 @@
 import Lean.Data.Json
 import Driver.Util
 import Driver.C18
+import Driver.C01
+import Driver.C07
 open Lean
 
 namespace Driver
@@ -13,6 +15,8 @@ def handle (j : Json) : Json :=
   match j.getObjValAs? String "p" with
   | .ok "ping" => Json.mkObj [("pong", true)]
   | .ok "C18" => C18.handle j
+  | .ok "C01" => C01.handle j
+  | .ok "C07" => C07.handle j
   | _ => badOp
 
 partial def loop (hin hout : IO.FS.Stream) : IO Unit := do
